@@ -86,11 +86,68 @@ type world struct {
 	calls    int         // resolver calls in the current processEntry call
 	snaps    []snap      // snapshot at each resolver call
 	offs     map[int][]int64
+	dels     map[int][]*[]byte // per attempt: what each Delete issued by the puller found at the final path
+	omu      sync.Mutex
+	trans    []transient // observations of the final path DURING attempts that do not match the manifest bytes
+	watch    bool
 	peers    sync.WaitGroup
 	puller   *filereplication.Puller
 }
 
 var w = &world{}
+
+type transient struct {
+	site string
+	got  []byte
+}
+
+// obsBackend wraps the real LocalBackend (AppendReader is promoted through the embedded pointer, so
+// it still is a storage.AppendingBackend).  It looks at the FINAL path whenever the puller touches
+// the backend in the middle of an attempt: before StatFile / ReadToAt / Delete, and right after the
+// write goroutine's WriteReader / AppendReader returned (i.e. possibly before Fetch delivered its
+// digest verdict and before the cleanup Delete).
+type obsBackend struct{ *storage.LocalBackend }
+
+func (o obsBackend) inspect(site string) *[]byte {
+	f := readOpt(filepath.Join(w.base, relPath))
+	w.omu.Lock()
+	if w.watch && f != nil && !bytes.Equal(*f, w.content) {
+		w.trans = append(w.trans, transient{site, *f})
+	}
+	w.omu.Unlock()
+	return f
+}
+
+func (o obsBackend) StatFile(ctx context.Context, path string) (int64, error) {
+	o.inspect("at-StatFile")
+	return o.LocalBackend.StatFile(ctx, path)
+}
+
+func (o obsBackend) ReadToAt(ctx context.Context, path string, wr io.Writer, off int64) error {
+	o.inspect("at-ReadToAt")
+	return o.LocalBackend.ReadToAt(ctx, path, wr, off)
+}
+
+func (o obsBackend) Delete(ctx context.Context, path string) error {
+	f := o.inspect("at-Delete")
+	w.mu.Lock()
+	k := w.calls - 1
+	w.dels[k] = append(w.dels[k], f)
+	w.mu.Unlock()
+	return o.LocalBackend.Delete(ctx, path)
+}
+
+func (o obsBackend) WriteReader(ctx context.Context, path string, r io.Reader, size int64) error {
+	err := o.LocalBackend.WriteReader(ctx, path, r, size)
+	o.inspect("after-WriteReader")
+	return err
+}
+
+func (o obsBackend) AppendReader(ctx context.Context, path string, r io.Reader, n int64) error {
+	err := o.LocalBackend.AppendReader(ctx, path, r, n)
+	o.inspect("after-AppendReader")
+	return err
+}
 
 func readOpt(p string) *[]byte {
 	b, err := os.ReadFile(p)
@@ -252,7 +309,7 @@ func runCase(c *vh.Ctx, cs caseSpec) {
 		panic(err)
 	}
 	p, err := filereplication.New(filereplication.Config{
-		SelfNodeID: "self", Backend: lb, Fetcher: recFetcher{fcl}, PeerResolver: w, Workers: 1, QueueSize: 4,
+		SelfNodeID: "self", Backend: obsBackend{lb}, Fetcher: recFetcher{fcl}, PeerResolver: w, Workers: 1, QueueSize: 4,
 		RetryMaxAttempts: cs.maxA, RetryInitialBackoff: time.Nanosecond, FetchTimeout: 20 * time.Second, Logger: zerolog.Nop(),
 	})
 	if err != nil {
@@ -286,8 +343,11 @@ func runCase(c *vh.Ctx, cs caseSpec) {
 
 	runProc := func(script [][]outcome, first bool) snap {
 		w.mu.Lock()
-		w.attempts, w.calls, w.snaps, w.offs = script, 0, nil, map[int][]int64{}
+		w.attempts, w.calls, w.snaps, w.offs, w.dels = script, 0, nil, map[int][]int64{}, map[int][]*[]byte{}
 		w.mu.Unlock()
+		w.omu.Lock()
+		w.trans, w.watch = nil, cs.monitors
+		w.omu.Unlock()
 		before := p.Stats()
 		emit("proc", "ok")
 		if cs.pool {
@@ -326,7 +386,15 @@ func runCase(c *vh.Ctx, cs caseSpec) {
 		dPulled := end.st["pulled"] - before["pulled"]
 		dFailed := end.st["failed"] - before["failed"]
 		nAtt := R + dSk
-		line := func(s snap, skAdj int64, offs []int64, st string) string {
+		line := func(s snap, skAdj int64, offs []int64, dels []*[]byte, st string) string {
+			ds := "-"
+			if len(dels) > 0 {
+				xs := make([]string, len(dels))
+				for i, d := range dels {
+					xs[i] = hexOpt(d)
+				}
+				ds = strings.Join(xs, ",")
+			}
 			os := "-"
 			if len(offs) > 0 {
 				xs := make([]string, len(offs))
@@ -335,9 +403,9 @@ func runCase(c *vh.Ctx, cs caseSpec) {
 				}
 				os = strings.Join(xs, ",")
 			}
-			return fmt.Sprintf("final=%s part=%s pulled=%d skipped=%d failed=%d cksum=%d badoff=%d nopeer=%d offs=%s st=%s",
+			return fmt.Sprintf("final=%s part=%s pulled=%d skipped=%d failed=%d cksum=%d badoff=%d nopeer=%d offs=%s dels=%s st=%s",
 				hexOpt(s.final), hexOpt(s.part), s.st["pulled"], s.st["skipped_local"]-skAdj, s.st["failed"],
-				s.st["checksum_mismatch"], s.st["bad_offset_server"], s.st["peer_lookup_failure"], os, st)
+				s.st["checksum_mismatch"], s.st["bad_offset_server"], s.st["peer_lookup_failure"], os, ds, st)
 		}
 		for k := 0; k < nAtt; k++ {
 			op := "att -"
@@ -354,10 +422,10 @@ func runCase(c *vh.Ctx, cs caseSpec) {
 			switch {
 			case k < R-1:
 				s, st = w.snaps[k+1], "cont"
-				out = line(s, 0, w.offs[k], st)
+				out = line(s, 0, w.offs[k], w.dels[k], st)
 			case k == R-1 && dSk == 1:
 				s, st = end, "cont"
-				out = line(s, 1, w.offs[k], st)
+				out = line(s, 1, w.offs[k], w.dels[k], st)
 			case k == R-1:
 				s = end
 				switch {
@@ -370,10 +438,10 @@ func runCase(c *vh.Ctx, cs caseSpec) {
 				default:
 					st = "returned-early"
 				}
-				out = line(s, 0, w.offs[k], st)
+				out = line(s, 0, w.offs[k], w.dels[k], st)
 			default: // the skip attempt
 				s, st = end, "skipped"
-				out = line(s, 0, nil, st)
+				out = line(s, 0, nil, nil, st)
 			}
 			emit(op, out)
 			c.Tag("st:" + st)
@@ -395,6 +463,17 @@ func runCase(c *vh.Ctx, cs caseSpec) {
 				c.Fail("counted-pulled-but-final-missing:pullOnce"+suffix,
 					fmt.Sprintf("pulled++ while the final path holds %s", hexOpt(s.final)), canon.String())
 			}
+		}
+		// ---- what was visible at the final path DURING the attempts of this call
+		w.omu.Lock()
+		trans := w.trans
+		w.watch = false
+		w.omu.Unlock()
+		for _, t := range trans {
+			c.Tag("transient-wrong-final:" + t.site)
+			c.Fail("final-holds-wrong-bytes:transient:"+t.site+suffix,
+				fmt.Sprintf("in the middle of an attempt (%s) the final path held %s, which is not the manifest file %s — unverified bytes were promoted before the SHA-256 verdict",
+					t.site, vh.Hex(t.got), vh.Hex(cs.content)), canon.String())
 		}
 		if cs.pool && cs.monitors && p.FullyCaughtUp() && !good(end.final) {
 			if dSk == 1 || dPulled > 0 {
@@ -511,7 +590,7 @@ func main() {
 		fmt.Fprintln(os.Stderr, "-facts required")
 		os.Exit(64)
 	}
-	factsLine = fmt.Sprintf("facts %d %d %d", bit("stat_part_fallback"), bit("delete_removes_part"), bit("presence_needs_final"))
+	factsLine = fmt.Sprintf("facts %d %d %d %d", bit("stat_part_fallback"), bit("delete_removes_part"), bit("presence_needs_final"), bit("promote_after_verdict"))
 	base, err := os.MkdirTemp("/var/tmp", "verif-c25-")
 	if err != nil {
 		panic(err)
